@@ -118,7 +118,7 @@ def check_split(c, rec):
 def loader_cases(draw):
     n = draw(st.one_of(st.integers(0, 40), st.sampled_from([64, 100, 257])))
     return {"n": n, "batch": draw(st.one_of(st.integers(1, n + 3), st.integers(1, 9))),
-            "transform": draw(st.sampled_from(["none", "none_default", "record", "new_objects"])),
+            "transform": draw(st.sampled_from(["none", "none_default", "record", "new_objects", "triple", "dict", "one_object"])),
             "partial_first_pass": draw(st.integers(0, 3)),
             # label arrays are per-sample along axis 0 whatever their trailing shape (id vector, column, one-hot rows,
             # several targets); same for the features
@@ -154,8 +154,25 @@ def check_loader(c, rec):
             calls.append((loader, np.array(Xb), np.array(yb)))
             return ("X", np.array(Xb) * 2.0), ("y", np.array(yb) + 100.0)
 
+    produced = []
+
+    class Shaped(data.DataLoaderCallback):
+        """what a transform returns IS the batch: a 3-tuple (features, mask, labels), a dict, any single object"""
+        def __call__(self, loader, Xb, yb):
+            calls.append((loader, np.array(Xb), np.array(yb)))
+            if t == "triple":
+                r = (np.array(Xb), np.ones(len(yb), dtype=bool), np.array(yb))
+            elif t == "dict":
+                r = {"features": np.array(Xb), "labels": np.array(yb)}
+            else:
+                r = ["batch", np.array(Xb), np.array(yb), len(produced)]
+            produced.append(r)
+            return r
+
     t = c["transform"]
-    if t == "none":
+    if t in ("triple", "dict", "one_object"):
+        dl = data.DataLoader(X, y, b, transform=Shaped())
+    elif t == "none":
         dl = data.DataLoader(X, y, b, transform=None)
     elif t == "none_default":
         dl = data.DataLoader(X, y, b)
@@ -189,6 +206,14 @@ def check_loader(c, rec):
         batches = one_pass()
         if len(batches) != want_len:
             raise Violation("loader_count", f"pass {pass_no} yielded {len(batches)} batches, expected {want_len}; {ctx}")
+        if t in ("triple", "dict", "one_object"):
+            mine = produced[-len(batches):] if batches else []
+            for j, batch in enumerate(batches):
+                if batch is not mine[j]:
+                    raise Violation("loader_transform", f"pass {pass_no} batch {j}: the loader yielded {type(batch).__name__} "
+                                                        f"{str(batch)[:80]!r}, not the object the transform returned "
+                                                        f"({type(mine[j]).__name__}); {ctx}")
+            batches = []
         for j, batch in enumerate(batches):
             lo, hi = j * b, (j + 1) * b
             if t == "new_objects":
@@ -216,7 +241,7 @@ def check_loader(c, rec):
                     raise Violation("loader_getitem", f"loader[{j}] raised {type(e).__name__}: {e}; {ctx}")
                 if not np.array_equal(np.asarray(yj), y[j * b:(j + 1) * b]) or not np.array_equal(np.asarray(Xj), X[j * b:(j + 1) * b]):
                     raise Violation("loader_getitem", f"loader[{j}] is not batch {j}; {ctx}")
-        if t in ("record", "new_objects"):
+        if t in ("record", "new_objects", "triple", "dict", "one_object"):
             if len(calls) != want_len:
                 raise Violation("loader_transform", f"transform called {len(calls)} times for {want_len} batches; {ctx}")
             for j, (ldr, Xb, yb) in enumerate(calls):
@@ -227,14 +252,17 @@ def check_loader(c, rec):
 # ---- one-hot ----------------------------------------------------------------------------------------
 @st.composite
 def onehot_cases(draw):
-    kind = draw(st.sampled_from(["ints", "gaps", "negative", "floats", "strings", "many"]))
+    kind = draw(st.sampled_from(["ints", "gaps", "negative", "floats", "strings", "many", "close_floats", "big_ints"]))
     if kind == "many":
         k = draw(st.sampled_from([257, 300, 520]))
         step = draw(st.sampled_from([1, 3]))
         labels = [((j * 7) % k) * step for j in range(k)] + [draw(st.integers(0, k - 1)) * step for _ in range(5)]
         return {"kind": kind, "labels": labels, "as": draw(st.sampled_from(["list", "ndarray"]))}
     pool = {"ints": [0, 1, 2, 3], "gaps": [0, 2, 5, 9, 40], "negative": [-3, -1, 0, 2], "floats": [0.5, 1.5, -2.25, 3.0],
-            "strings": ["cat", "dog", "ant", "bee"]}[kind]
+            "strings": ["cat", "dog", "ant", "bee"],
+            # distinct labels that a narrower type would merge: doubles 1e-9 apart, integers beyond 2^24 / 2^31
+            "close_floats": [0.1, 0.1 + 1e-9, 0.5, 0.5 - 1e-12, 16777216.0, 16777217.0, 1e-50, 0.0],
+            "big_ints": [16777216, 16777217, 2 ** 31 - 1, 2 ** 31, 2 ** 40, 2 ** 40 + 1, -2 ** 33]}[kind]
     k = draw(st.integers(1, len(pool)))
     used = draw(st.permutations(pool))[:k]
     labels = [draw(st.sampled_from(used)) for _ in range(draw(st.integers(1, 12)))]
